@@ -230,7 +230,8 @@ func runC01(c *core.Ctx) {
 				}
 				c.Check(n >= 3, "longer-dumps-subtree", ng.Name()+" dump and descent sites found", ng.Decl.Pos(), fmt.Sprintf("found %d", n))
 			}
-		}	}
+		}
+	}
 
 	// the placement arithmetic (Contains/GetSupernet/BitAtPosition): the structural clauses of C15
 	runC15(c)
